@@ -7,7 +7,9 @@
 //!   rsim selftest determinism <PROP> <n>        run n scenarios twice in fresh processes, diff digests
 
 #![allow(dead_code, clippy::too_many_arguments)]
+mod audit;
 mod common;
+mod gf2;
 mod harness;
 mod interpose;
 mod model;
@@ -16,6 +18,7 @@ mod readback;
 mod restore_check;
 mod rng;
 mod sched;
+mod sim;
 mod store;
 mod world;
 
